@@ -731,6 +731,15 @@ func main() {
 		qvc = append(qvc, fmt.Sprintf("(%s, %s, [%s])", leanStr(v.fn), leanStr(v.tpl), strings.Join(as, ", ")))
 	}
 	fmt.Fprintf(&b, "/-- (function, template method, Sprintf arguments) of the version statements in sqlize.go, in source order -/\ndef versionCalls : List (String × String × List String) := [%s]\n\n", strings.Join(qvc, ", "))
+	qd := []string{}
+	for _, e := range readerDispatch(fset, *repo) {
+		cs := []string{}
+		for _, c := range e.calls {
+			cs = append(cs, leanStr(c))
+		}
+		qd = append(qd, fmt.Sprintf("  (%s, %s, [%s])", leanStr(e.fn), leanStr(e.path), strings.Join(cs, ", ")))
+	}
+	fmt.Fprintf(&b, "/-- the readers' dispatch tables: (function, branch on the node kind, model edits written directly in it, in source order) -/\ndef readerEdits : List (String × String × List String) := [\n%s]\n\n", strings.Join(qd, ",\n"))
 	b.WriteString("end Sqlize.Facts\n")
 
 	if *out == "" {
